@@ -162,10 +162,11 @@ def check(R, F):
             R.bad('gate', HMWC + '|' + name.split('::')[-1], hm.where(b), 'the result is not tested')
             continue
         tt = hm.blocks[sw]['term']
-        if kind == 'bool':
-            fail = [tb for v, tb in tt['targets'] if v == 0]
-        else:
-            fail = [tb for v, tb in tt['targets'] if v == 0]   # None
+        # the edge taken for `false` / `None` (discriminant 0): listed explicitly, or the otherwise edge when only the
+        # success value is listed (`let Some(x) = .. else { return }`)
+        fail = [tb for v, tb in tt['targets'] if v == 0]
+        if not fail and [v for v, tb in tt['targets']] == [1]:
+            fail = [tt['otherwise']]
         bad = None
         for fb in fail:
             bad = bad or hm.find_path(fb, lambda z: hm.blocks[z]['term']['k'] == 'call' and (mutates_response(hm, hm.blocks[z]['term']) or callee_name(hm.blocks[z]['term']).endswith('peek_rr')))
